@@ -4,6 +4,7 @@ import re
 from fractions import Fraction as Fr
 
 from ..nf import Rat, Poly, C
+from ..source import Unsupported
 from ..xlate import Interp, Frame, Obj, Raised, _RaisedExc
 from .common import same, show
 from .rxnfix import get_public
@@ -13,8 +14,8 @@ EOS = 'pmutt.eos'
 # ---------------------------------------------------------------------------------------------------------------------
 # The quantifier of the property (properties.jsonl), written down once: the box of states and of van der Waals
 # parameters.  Two oracles for comparisons in the analysed code are derived from it:
-#   _Box    decides a comparison only when it has the same outcome for EVERY point of the box (interval arithmetic
-#           over strictly positive quantities) - used by the symbolic passes, anything else stays exit 2;
+#   _Box    decides a comparison only when it has the same outcome for EVERY point of the (closed) box (interval
+#           arithmetic over strictly positive quantities) - used by the symbolic passes, anything else stays exit 2;
 #   _Point  decides every comparison at ONE point of the box (a corner, or a CO2-like interior point): a guard that
 #           cuts into the box (assert b < 1e-4, "no liquid volume when the cubic has one real root") raises there.
 # The numbers below place witnesses; they are not compared with anything the code computes.
@@ -38,8 +39,12 @@ class _Box:
     """ordering oracle: true/false when the comparison comes out the same for all points of the box, else None"""
 
     def __init__(self, ints=False):
-        # critical points: those of the gases of the box, named by their (a, b)
-        self.iv = {'kb': (KB, KB), 'Na': (NA, NA), 'U<bar>': (UBAR, UBAR), 'crit.a': RANGE['a'], 'crit.b': RANGE['b']}
+        # critical points: the rectangle Tc 5-1000 K x Pc 1-300 bar of the quantifier, which has ranges of its own:
+        # a gas built from a critical point has a = 27 (R Tc)^2 / 64 Pc in [2.4e-5, 292] and b = R Tc / 8 Pc in
+        # [1.7e-7, 1.04e-2], far outside the (a, b) box of the states
+        self.iv = {'kb': (KB, KB), 'Na': (NA, NA), 'U<bar>': (UBAR, UBAR)}
+        for k in ('', '2'):
+            self.iv['Tc' + k], self.iv['Pc' + k] = RANGE['Tc'], RANGE['Pc']
         for k in ('', '2'):
             nm = _names(k)
             for q in ('T', 'P', 'n', 'a', 'b'):
@@ -114,15 +119,37 @@ class _Box:
                 s *= ps
         return s
 
+    def differences(self, a, b):
+        """enclosures (lo, hi, strict) of a - b on the (closed) box, the sharpest first; an end is None when it is not
+        known, strict says that a known end 0 is not attained"""
+        d = a - b
+        if not d.f:
+            iv = self.poly(d.n)             # one polynomial: cancellations between a and b are seen
+            if iv is not None:
+                yield iv[0], iv[1], False
+        s = self.sign(d)
+        if s is not None:
+            yield (Fr(0), Fr(0), False) if s == 0 else ((Fr(0), None, True) if s > 0 else (None, Fr(0), True))
+        ia, ib = self.interval(a), self.interval(b)
+        if ia is not None and ib is not None:
+            yield ia[0] - ib[1], ia[1] - ib[0], False
+
     def __call__(self, a, op, b):
-        s = self.sign(a - b)
-        if s is None:
-            ia, ib = self.interval(a), self.interval(b)
-            if ia is not None and ib is not None:
-                s = -1 if ia[1] < ib[0] else (1 if ia[0] > ib[1] else None)
-        if s is None:
-            return None
-        return {'<': s < 0, '<=': s <= 0, '>': s > 0, '>=': s >= 0, '==': s == 0, '!=': s != 0}[op]
+        """the comparison when it comes out the same at every point of the box - the box is closed, so `len >= 1` for
+        a length in [1, 3] and `T >= 50` are decided; `T > 50` is not (it fails at the end point)"""
+        def decide(true, false):
+            return True if true else (False if false else None)
+        for lo, hi, strict in self.differences(a, b):
+            pos = lo is not None and (lo > 0 or strict)
+            neg = hi is not None and (hi < 0 or strict)
+            nonneg = lo is not None and lo >= 0
+            nonpos = hi is not None and hi <= 0
+            zero = nonneg and nonpos and not strict
+            got = {'<': decide(neg, nonneg), '<=': decide(nonpos, pos), '>': decide(pos, nonpos),
+                   '>=': decide(nonneg, neg), '==': decide(zero, pos or neg), '!=': decide(pos or neg, zero)}[op]
+            if got is not None:
+                return got
+        return None
 
 
 class _Point:
@@ -132,9 +159,7 @@ class _Point:
         T, P, n, a, b, Tc, Pc = (Fr(str(x)) for x in (T, P, n, a, b, Tc, Pc))
         P_SI = P / UBAR
         V = n * (b + RGAS * T / P_SI)             # a volume the gas can have: above n*b, pressure positive
-        # the gas that has this critical point: a = 27 (R Tc)^2 / 64 Pc, b = R Tc / 8 Pc
-        self.val = {'kb': KB, 'Na': NA, 'U<bar>': UBAR, 'crit.a': Fr(27, 64) * (RGAS * Tc) ** 2 / (Pc / UBAR),
-                    'crit.b': RGAS * Tc / 8 / (Pc / UBAR)}
+        self.val = {'kb': KB, 'Na': NA, 'U<bar>': UBAR, 'Tc': Tc, 'Pc': Pc}
         nm = _names('')
         self.val.update({nm['T']: T, nm['P']: P, nm['n']: n, nm['V']: V, nm['a']: a, nm['b']: b, 'Vm': V / n,
                          'rho': n / V})
@@ -142,6 +167,7 @@ class _Point:
         c3, c2, c1, c0 = P_SI, -(P_SI * b + RGAS * T), a, -a * b
         disc = 18 * c3 * c2 * c1 * c0 - 4 * c2 ** 3 * c0 + c2 ** 2 * c1 ** 2 - 4 * c3 * c1 ** 3 - 27 * c3 ** 2 * c0 ** 2
         self.nreal = 3 if disc > 0 else 1
+        self.more = None
         self.label = label or 'T=%g P=%g n=%g a=%g b=%g Tc=%g Pc=%g' % tuple(
             float(x) for x in (T, P, n, a, b, Tc, Pc))
 
@@ -151,7 +177,18 @@ class _Point:
             return Fr(self.nreal)
         if got is None and LEN_ROOT.fullmatch(a):
             return Fr(3)
+        if got is None and self.more is not None:
+            return self.more(a)
         return got
+
+    def with_tables(self, values):
+        """this point with the physical constants and unit factors at the values written in the literal tables of
+        pmutt.constants (atom name -> Fraction)"""
+        import copy
+        q = copy.copy(self)
+        q.val = {k: v for k, v in self.val.items() if k not in ('kb', 'Na', 'U<bar>')}
+        q.more = values.get
+        return q
 
     def poly(self, p):
         tot = Fr(0)
@@ -197,21 +234,27 @@ def witnesses(tier):
         _Point(lo['T'], lo['P'], lo['n'], hi['a'], lo['b'], lo['Tc'], lo['Pc']),
         # hot, dense, weakly attracting, large molecules / the upper corner of the critical points
         _Point(hi['T'], hi['P'], hi['n'], lo['a'], hi['b'], hi['Tc'], hi['Pc']),
-        # cold and dense with the largest co-volume / n-hexane-like critical point (b = 1.74e-4)
-        _Point(lo['T'], hi['P'], hi['n'], lo['a'], hi['b'], '507.6', '30.25'),
-        # hot and dilute, a and b at their upper ends / benzene-like critical point (b = 1.19e-4)
-        _Point(hi['T'], lo['P'], lo['n'], hi['a'], hi['b'], '562.05', '48.95'),
+        # cold and dense with the largest co-volume / the corner (1000 K, 1 bar): a = 292, b = 1.04e-2
+        _Point(lo['T'], hi['P'], hi['n'], lo['a'], hi['b'], hi['Tc'], lo['Pc']),
+        # hot and dilute, a and b at their upper ends / the corner (5 K, 300 bar): a = 2.4e-5, b = 1.7e-7
+        _Point(hi['T'], lo['P'], lo['n'], hi['a'], hi['b'], lo['Tc'], hi['Pc']),
+        # CO2 far below Tc at the lowest pressure (three real roots; the liquid-root pressure is a small difference of
+        # two large terms) / n-hexadecane-like critical point (a = 10.9, b = 5.4e-4)
+        _Point(100, lo['P'], 1, '0.364', '4.27e-5', '722', '14'),
+        # N2 far below Tc at the lowest pressure / n-hexane-like critical point (b = 1.74e-4)
+        _Point(100, lo['P'], 1, '0.137', '3.87e-5', '507.6', '30.25'),
     ]
     if tier == 'thorough':
         seen = {tuple(sorted(p.val.items())) for p in pts}
-        crit = [(lo['Tc'], lo['Pc']), (hi['Tc'], hi['Pc']), ('507.6', '30.25')]
+        crit = [(lo['Tc'], lo['Pc']), (hi['Tc'], hi['Pc']), (hi['Tc'], lo['Pc']), (lo['Tc'], hi['Pc']),
+                ('507.6', '30.25'), ('562.05', '48.95'), ('768', '10.7')]
         i = 0
         for T in (lo['T'], hi['T']):
             for P in (lo['P'], hi['P']):
                 for n in (lo['n'], hi['n']):
                     for a in (lo['a'], hi['a']):
                         for b in (lo['b'], hi['b']):
-                            p = _Point(T, P, n, a, b, *crit[i % 3])
+                            p = _Point(T, P, n, a, b, *crit[i % len(crit)])
                             i += 1
                             if tuple(sorted(p.val.items())) not in seen:
                                 seen.add(tuple(sorted(p.val.items())))
@@ -228,14 +271,22 @@ def check(run, repo):
         'handed to np.roots is Vm^2[(P+a/Vm^2)(Vm-b)-RT] times a factor that is never zero, so any root satisfies '
         'get_P; gas/liquid root is the max/min real root, for the flag given as True/False and as a true/false value '
         'that is not the singleton; V = n*Vm and n = V/Vm with Vm free of n; from_critical followed by '
-        'get_Tc/get_Pc/get_Vc returns the inputs and 3nb; P_vdW/P_ideal and T_vdW/T_ideal tend to 1 as n/V -> 0. '
-        'Every getter is called on two objects at two states and again on the first (nothing is remembered). '
+        'get_Tc/get_Pc/get_Vc returns the inputs and 3nb, and get_P(Tc, Vc) = Pc, for Tc and Pc with the ranges of '
+        'their own (5-1000 K, 1-300 bar); P_vdW/P_ideal and T_vdW/T_ideal tend to 1 as n/V -> 0. '
+        'History: every getter is asked in nine rounds between which one thing changes at a time - P, T, n, V, then '
+        'the public attributes a and b are re-assigned, then a second object, then the first object at its first '
+        'state again; from_critical with another Pc, another Tc and the first point again (nothing is remembered). '
+        'Numbers: at every witness point the round trips are also evaluated with the values written in the literal '
+        'tables (c.R(u) and c.kb(u) kept as separate entries), the volume being the largest/smallest real root of '
+        'the cubic the code sets up, computed to 30 digits by the checker: the state must come back to 1e-6. '
         'Comparisons in the analysed code are decided only where they come out the same on the whole box of the '
         'quantifier (interval arithmetic); in addition every obligation is run at witness points of the box '
         '(corners, a CO2 state with three real roots) where all comparisons are decided, so that a guard which '
         'refuses part of the box is reported.')
     run.assumptions = ['np.roots returns the roots of the polynomial whose coefficients it is given (NumPy contract)',
-                       'unit model of pmutt.constants as verified by C12']
+                       'unit model of pmutt.constants as verified by C12',
+                       'with the values of the literal tables a state "comes back" when it agrees to 1e-6 relative '
+                       '(the tables carry eight significant digits; exact arithmetic, no rounding of floats)']
     run.undecided = ['root-finding numerics (conditioning of the cubic)',
                      'comparisons inside the code are decided on the whole box or at the witness points listed in '
                      'the evidence, not on every sub-region of the box']
@@ -243,9 +294,16 @@ def check(run, repo):
     pts = witnesses(run.tier)
     for p in pts:
         body(_Suffixed(run, ' [at %s]' % p.label), repo, 'float', p, False)
-    run.floor('witness points of the box', len(pts), 6)
+    run.floor('witness points of the box', len(pts), 8)
     run.sample({'witness_points': [p.label + ' (%d real root%s)' % (p.nreal, 's' if p.nreal > 1 else '')
                                    for p in pts]})
+    # the same witness points with the numbers the package really uses: the literal tables of pmutt.constants are
+    # read (every entry an atom with the value written in the source) and the state that comes back is compared as a
+    # number - two spellings of one constant that differ in the ninth digit (R and kB*NA) are one constant for the
+    # unit model, but not on the liquid root, where the pressure is a small difference of two large terms
+    values = table_numbers(repo)
+    for p in pts:
+        table_values(_Suffixed(run, ' [table values at %s]' % p.label), repo, p, values)
     # all states at once: comparisons decided only when they hold on the whole box
     body(run, repo, 'float', _Box(), True)
     # the same obligations with the state given as Python ints (T=500, n=2) and as numpy scalars (T from np.arange, a
@@ -285,6 +343,23 @@ def _user(I, module, text, **names):
     """value of an expression as a user of the package would write it in a script (a Raised when it raises)"""
     try:
         return Frame(I, module, dict(names), None, None).ev(ast.parse(text, mode='eval').body)
+    except _RaisedExc as e:
+        return e.raised
+
+
+def _user_do(I, module, text, **names):
+    """a statement as a user of the package would write it in a script (a Raised when it raises, else None)"""
+    try:
+        Frame(I, module, dict(names), None, None).exec_block(ast.parse(text).body)
+    except _RaisedExc as e:
+        return e.raised
+    return None
+
+
+def _public(I, obj, attr):
+    """obj.attr as a user reads it (a Raised when reading raises)"""
+    try:
+        return get_public(I, obj, attr)
     except _RaisedExc as e:
         return e.raised
 
@@ -337,8 +412,11 @@ def body(run, repo, kind, order, repeat):
     toPa = C(1) / D.sym('U<bar>')
     Rmb = RJ * D.sym('U<bar>')
 
-    # two objects of each class, two states: (object, state) 1, then 2, then 1 again - a getter that remembers
-    # anything from an earlier call (a cache keyed without the object, the flag or an argument) answers wrongly
+    # Two objects of each class, two states.  Between consecutive rounds ONE thing changes - one argument, then one
+    # parameter of the object (the documented public attributes a and b are re-assigned), then the object - and at
+    # the end the first object is asked its first state again: a getter that remembers anything from an earlier call
+    # (a memo whose key lacks the object, the flag, an argument or a parameter; a value cached on the object)
+    # answers wrongly in the round in which the forgotten thing is the one that changed
     world = {}
     for k in ('', '2') if repeat else ('',):
         nm = _names(k)
@@ -351,13 +429,48 @@ def body(run, repo, kind, order, repeat):
         ig = I.construct(ci, [], {}, name='ig' + k)
         vw = I.construct(vci, [], {'a': a, 'b': b}, name='vdw' + k)
         world[k] = (ig, vw, st, a, b)
-    rounds = [('', ''), ('2', ' [second object, second state]'), ('', ' [first object, second call]')] if repeat \
-        else [('', '')]
-    for k, sfx in rounds:
-        ig, vw, st, a, b = world[k]
+    ig, vw, st, a, b = world['']
+    if not repeat:
+        ideal_gas(run, repo, I, ci, ig, st, Rmb)
+        van_der_waals(run, repo, I, box, ci, vci, ig, vw, st, a, b, RJ, toPa, first=True, history=False)
+        return
+    ig2, vw2, st2, a2, b2 = world['2']
+    cur = dict(st)
+    rounds = [('', None, None)]
+    for q, what in (('P', 'pressure'), ('T', 'temperature'), ('n', 'amount'), ('V', 'volume')):
+        rounds.append((' [first object, other %s]' % what, ('arg', q), None))
+    rounds += [(' [first object, a re-assigned]', ('attr', 'a'), None),
+               (' [first object, b re-assigned]', ('attr', 'b'), None),
+               (' [second object, second state]', ('object', '2'), None),
+               (' [first object, second call]', ('object', ''), None)]
+    obj_ig, obj_vw, pa, pb = ig, vw, a, b
+    for sfx, (kind_, what), _ in [(r[0], r[1] or ('', ''), r[2]) for r in rounds]:
         r_ = _Suffixed(run, sfx) if sfx else run
-        ideal_gas(r_, repo, I, ci, ig, st, Rmb)
-        van_der_waals(r_, repo, I, box, ci, vci, ig, vw, st, a, b, RJ, toPa, first=not sfx)
+        if kind_ == 'arg':
+            cur[what] = st2[what]
+        elif kind_ == 'attr' and isinstance(obj_vw, Obj):
+            new = a2 if what == 'a' else b2
+            res = _user_do(I, vci.module, 'eos.%s = x' % what, eos=obj_vw, x=new)
+            if isinstance(res, Raised) or not same(_public(I, obj_vw, what), new):
+                # the parameters of this class cannot be re-assigned (the statement raises, or the object does not
+                # report the new value): the object keeps what it was built from - what it makes of an assignment
+                # is not this property's business - and a new object stands for "the same gas with another a / b"
+                keep_a, keep_b = (new, pb) if what == 'a' else (pa, new)
+                obj_vw = I.construct(vci, [], {'a': keep_a, 'b': keep_b}, name='vdw_' + what)
+            if what == 'a':
+                pa = new
+            else:
+                pb = new
+        elif kind_ == 'object' and what == '2':
+            obj_ig, obj_vw, pa, pb = ig2, vw2, a2, b2
+        elif kind_ == 'object':
+            # the first object again, with the parameters and the state it had at first
+            obj_ig, obj_vw, pa, pb, cur = ig, vw, a, b, dict(st)
+            if isinstance(vw, Obj):
+                for nm_, val in (('a', a), ('b', b)):
+                    _user_do(I, vci.module, 'eos.%s = x' % nm_, eos=vw, x=val)
+        ideal_gas(r_, repo, I, ci, obj_ig, cur, Rmb)
+        van_der_waals(r_, repo, I, box, ci, vci, obj_ig, obj_vw, cur, pa, pb, RJ, toPa, first=not sfx, history=True)
 
 
 def ideal_gas(run, repo, I, ci, ig, state, Rmb):
@@ -394,11 +507,11 @@ def ideal_gas(run, repo, I, ci, ig, state, Rmb):
     run.floor('ideal gas round trips', cnt, 12)
 
 
-def van_der_waals(run, repo, I, box, ci, vci, ig, vw, state, a, b, RJ, toPa, first):
+def van_der_waals(run, repo, I, box, ci, vci, ig, vw, state, a, b, RJ, toPa, first, history):
     D = I.D
     T, P, V, n = (state[q] for q in 'TPVn')
     if first:
-        critical_point(run, repo, I, vci, n, RJ, toPa)
+        critical_point(run, repo, I, vci, n, RJ, toPa, history)
     if isinstance(vw, Raised):
         # the constructor is on every path: a gas of the box that cannot be built fails every clause of the property
         run.fail('REF.construct', 'vanDerWaalsEOS', 'constructs', 'vanDerWaalsEOS(a, b) raises %s for van der Waals '
@@ -523,32 +636,243 @@ def van_der_waals(run, repo, I, box, ci, vci, ig, vw, state, a, b, RJ, toPa, fir
                       'with a=b=0 %s gives %s but the ideal gas gives %s' % (m, show(got), show(want)), o5.module, f5)
 
 
-def critical_point(run, repo, I, vci, n, RJ, toPa):
+def critical_point(run, repo, I, vci, n, RJ, toPa, history):
     D = I.D
-    # construction from the critical point, then the getters.  The critical points the property quantifies over are
-    # those of the gases of the box: (Tc, Pc) is written through the (a, b) of such a gas - a one-to-one
-    # reparametrisation, so an identity in (crit.a, crit.b) is an identity in (Tc, Pc) - which lets the box oracle
-    # decide what the constructor asks about a and b
-    ac, bc = D.sym('crit.a'), D.sym('crit.b')
-    Tc, Pc = 8 * ac / (27 * bc * RJ), ac / (27 * bc * bc) / toPa
+    # construction from the critical point, then the getters.  Tc and Pc are symbols with the ranges the quantifier
+    # gives them (5-1000 K, 1-300 bar): what the constructor asks about a and b is decided for the a and b of THESE
+    # gases.  With history: one argument changes at a time, and the first critical point is asked again
     owner, fn = repo.find_method(vci, 'from_critical')
-    # as a user writes it: called on the class
-    o = _user(I, vci.module, 'vanDerWaalsEOS.from_critical(Tc=Tc_, Pc=Pc_)', Tc_=Tc, Pc_=Pc)
-    if not isinstance(o, Obj):
-        run.fail('REF.critical', 'vanDerWaalsEOS.from_critical', 'constructs', 'from_critical does not build an '
-                 'equation of state for the critical point of a gas of the box (%s)' % show(o), owner.module, fn)
-    else:
+    seq = [('', '', '')]
+    if history:
+        seq += [('', '2', ' [other Pc]'), ('2', '2', ' [other Tc]'), ('', '', ' [first critical point again]')]
+        D.sym('Tc2'), D.sym('Pc2')
+    for kT, kP, sfx in seq:
+        Tc, Pc = D.sym('Tc' + kT), D.sym('Pc' + kP)
+        r_ = _Suffixed(run, sfx) if sfx else run
+        # as a user writes it: called on the class
+        o = _user(I, vci.module, 'vanDerWaalsEOS.from_critical(Tc=Tc_, Pc=Pc_)', Tc_=Tc, Pc_=Pc)
+        if not isinstance(o, Obj):
+            r_.fail('REF.critical', 'vanDerWaalsEOS.from_critical', 'constructs', 'from_critical does not build an '
+                    'equation of state for a critical point of the quantifier, Tc 5-1000 K and Pc 1-300 bar (%s)'
+                    % show(o), owner.module, fn)
+            continue
         gTc = I.call_method(o, 'get_Tc', [], {})
         gPc = I.call_method(o, 'get_Pc', [], {})
-        run.check(same(gTc, Tc), 'ALG.roundtrip', 'vanDerWaalsEOS.get_Tc', 'Tc after from_critical',
-                  'from_critical(Tc, Pc).get_Tc() = %s, not Tc = %s' % (show(gTc), show(Tc)), owner.module, fn,
-                  sample='from_critical(Tc,Pc).get_Tc() == Tc')
-        run.check(same(gPc, Pc), 'ALG.roundtrip', 'vanDerWaalsEOS.get_Pc', 'Pc after from_critical',
-                  'from_critical(Tc, Pc).get_Pc() = %s, not Pc = %s' % (show(gPc), show(Pc)), owner.module, fn)
+        r_.check(same(gTc, Tc), 'ALG.roundtrip', 'vanDerWaalsEOS.get_Tc', 'Tc after from_critical',
+                 'from_critical(Tc, Pc).get_Tc() = %s, not Tc = %s' % (show(gTc), show(Tc)), owner.module, fn,
+                 sample='from_critical(Tc,Pc).get_Tc() == Tc')
+        r_.check(same(gPc, Pc), 'ALG.roundtrip', 'vanDerWaalsEOS.get_Pc', 'Pc after from_critical',
+                 'from_critical(Tc, Pc).get_Pc() = %s, not Pc = %s' % (show(gPc), show(Pc)), owner.module, fn)
         gVc = I.call_method(o, 'get_Vc', [], {'n': n})
-        run.check(same(gVc, 3 * n * RJ * Tc / (8 * Pc * toPa)), 'REF.critical', 'vanDerWaalsEOS.get_Vc',
-                  'Vc after from_critical', 'from_critical(Tc, Pc).get_Vc(n) = %s, not 3 n b with b = R Tc / 8 Pc'
-                  % show(gVc), owner.module, fn)
+        r_.check(same(gVc, 3 * n * RJ * Tc / (8 * Pc * toPa)), 'REF.critical', 'vanDerWaalsEOS.get_Vc',
+                 'Vc after from_critical', 'from_critical(Tc, Pc).get_Vc(n) = %s, not 3 n b with b = R Tc / 8 Pc'
+                 % show(gVc), owner.module, fn)
+        # the critical point lies on the critical isotherm of the gas that was built: get_P(Tc, Vc, n) = Pc
+        gP = I.call_method(o, 'get_P', [], {'T': gTc, 'V': gVc, 'n': n})
+        r_.check(same(gP, Pc), 'ALG.roundtrip', 'vanDerWaalsEOS.get_P', 'P(Tc, Vc) after from_critical',
+                 'from_critical(Tc, Pc): get_P(T=get_Tc(), V=get_Vc(n), n) = %s, not Pc' % show(gP), owner.module, fn)
+
+
+# ---------------------------------------------------------------------------------------------------------------------
+# numbers: the round trips with the values of the literal tables
+TOL = Fr(1, 10 ** 6)
+
+
+def _isqrt_fr(q, digits=40):
+    """square root of a non-negative Fraction to `digits` decimal places (rounded down)"""
+    import math
+    s_ = 10 ** digits
+    return Fr(math.isqrt(q.numerator * s_ * s_ // q.denominator), s_)
+
+
+def real_roots(co):
+    """the real roots of the cubic with the rational coefficients co (highest power first), each to 1e-30 relative:
+    bisection between the stationary points - the checker's own arithmetic, nothing of the package is used"""
+    c3, c2, c1, c0 = co
+    if c3 == 0:
+        return None
+
+    def f(x):
+        return ((c3 * x + c2) * x + c1) * x + c0
+    bound = 1 + max(abs(c / c3) for c in (c2, c1, c0))
+    cuts = [-bound]
+    dd = c2 * c2 - 3 * c3 * c1                  # discriminant / 4 of the derivative
+    if dd > 0:
+        r = _isqrt_fr(dd)
+        cuts += sorted([(-c2 - r) / (3 * c3), (-c2 + r) / (3 * c3)])
+    cuts.append(bound)
+    roots = []
+    for lo, hi in zip(cuts, cuts[1:]):
+        flo, fhi = f(lo), f(hi)
+        if flo == 0:
+            roots.append(lo)
+            continue
+        if flo * fhi > 0 or fhi == 0:
+            continue
+        for _ in range(400):
+            mid = (lo + hi) / 2
+            fm = f(mid)
+            if fm == 0:
+                lo = hi = mid
+                break
+            if (fm > 0) == (flo > 0):
+                lo = mid
+            else:
+                hi = mid
+            if abs(hi - lo) <= abs(mid) / 10 ** 30:
+                break
+        roots.append(((lo + hi) / 2).limit_denominator(10 ** 80))
+    if f(bound) == 0:
+        roots.append(bound)
+    return roots
+
+
+def table_numbers(repo):
+    """the values the literal tables of pmutt.constants give to the entries behind c.R and c.kb (atoms R[u], kb[u]), to
+    the unit factors U<..> and to Na: exact Fractions of the digits written"""
+    from ..fold import fold_table, fold_num
+    from ..xlate import unit_table
+    from .c12 import const_table          # the numeric table a constants function consults, found by role
+    m = repo.module('pmutt.constants')
+    env = {'Na': fold_num(m, m.assigns['Na'][-1])} if 'Na' in m.assigns else {}
+    um, _nm, unode = unit_table(repo)
+    values = {k: v.v for k, v in env.items()}
+    for key, num, _v in fold_table(um, unode, env or None):
+        values['U<%s>' % key] = num.v
+    for fname in ('R', 'kb'):
+        tm, _nm, node = const_table(repo, m, fname, exclude=(unode,))
+        for key, num, _v in fold_table(tm, node, env or None):
+            values['%s[%s]' % (fname, key)] = num.v
+    return values
+
+
+def table_interp(repo):
+    """the unit model with every entry of the tables behind c.R and c.kb kept apart: c.R(u) is the atom R[u], c.kb(u)
+    the atom kb[u], instead of kb*Na*U<..> and kb*U<..>.  What the functions of pmutt.constants do with their tables
+    stays the unit model (verified by C12)."""
+    I = Interp(repo)
+    for fname in ('R', 'kb'):
+        def entry(I_, fr, args, kwargs, n, base=I.native['pmutt.constants.' + fname], fname=fname):
+            base(I_, fr, list(args), dict(kwargs), n)       # refuses what the function refuses (unknown unit: KeyError)
+            u = args[0] if args else kwargs.get('units')
+            if not isinstance(u, str):
+                raise Unsupported('units argument of c.%s' % fname, n)
+            return I_.D.sym('%s[%s]' % (fname, u))
+        I.native['pmutt.constants.' + fname] = entry
+    return I
+
+
+def table_values(run, repo, pt, values):
+    I = table_interp(repo)
+    pt = pt.with_tables(values)
+    I.order = pt
+    I.track_print_precision = True
+    D = I.D
+    ci = repo.cls(EOS + '.IdealGasEOS')
+    vci = repo.cls(EOS + '.vanDerWaalsEOS')
+    nm = _names('')
+    st = {q: D.sym(nm[q]) for q in 'TPVn'}
+    a, b = D.sym(nm['a']), D.sym(nm['b'])
+
+    def num(r):
+        if not isinstance(r, Rat):
+            return None         # a Raised, an object: not the number that was expected
+        v = pt.value(r)
+        if v is None:
+            raise Unsupported('no value in the literal tables for an atom of %s' % show(r))
+        return v
+
+    def close(got, want):
+        g, w = num(got), num(want)
+        return g is not None and w is not None and abs(g - w) <= TOL * abs(w)
+
+    def rel(got, want):
+        g, w = num(got), num(want)
+        if g is None or w is None or w == 0:
+            return show(got)
+        return '%.6g, relative error %.2e' % (float(g), float(abs(g - w) / abs(w)))
+
+    ig = I.construct(ci, [], {}, name='ig')
+    cnt = 0
+    if isinstance(ig, Obj):
+        for solve in ARGN:
+            x = OUT_OF[solve]
+            st2 = dict(st)
+            st2[x] = I.call_method(ig, solve, [], {k: st[k] for k in ARGN[solve]})
+            for back in ARGN:
+                if back == solve:
+                    continue
+                y = OUT_OF[back]
+                got = I.call_method(ig, back, [], {k: st2[k] for k in ARGN[back]})
+                owner, fn = repo.find_method(ci, back)
+                run.check(close(got, st[y]), 'NUM.roundtrip', 'IdealGasEOS.' + back, '%s after %s' % (back, solve),
+                          'with the table values, substituting %s from %s into %s gives %s = %s, not the %s of the '
+                          'state (%.6g)' % (x, solve, back, y, rel(got, st[y]), y, float(num(st[y]))),
+                          owner.module, fn)
+                cnt += 1
+    vw = I.construct(vci, [], {'a': a, 'b': b}, name='vdw')
+    if not isinstance(vw, Obj):
+        return          # reported by the other passes (REF.construct)
+    T, P, V, n = (st[q] for q in 'TPVn')
+    Pv = I.call_method(vw, 'get_P', [], {'T': T, 'V': V, 'n': n})
+    Tv = I.call_method(vw, 'get_T', [], {'V': V, 'P': P, 'n': n})
+    for m, arg, val, y in (('get_T', 'P', Pv, 'T'), ('get_P', 'T', Tv, 'P')):
+        kw = {'V': V, 'n': n, arg: val}
+        got = I.call_method(vw, m, [], kw)
+        owner, fn = repo.find_method(vci, m)
+        run.check(close(got, st[y]), 'NUM.roundtrip', 'vanDerWaalsEOS.' + m, '%s after %s' % (m, 'get_' + arg),
+                  'with the table values, %s(%s=get_%s(...)) = %s, not %s = %.6g'
+                  % (m, arg, arg, rel(got, st[y]), y, float(num(st[y]))), owner.module, fn)
+        cnt += 1
+    # the volume root of the cubic the code sets up, to 30 digits, then back through get_P and get_T
+    owner, fn = repo.find_method(vci, 'get_Vm')
+    Vm = D.sym('Vm')
+    for gas, want_kind in ((True, 'MAX'), (False, 'MIN')):
+        r = I.call_method(vw, 'get_Vm', [], {'T': T, 'P': P, 'gas_phase': gas})
+        atoms_ = list(r.atoms()) if isinstance(r, Rat) else []
+        ok = len(atoms_) == 1 and re.fullmatch(want_kind + ROOT_PAT, atoms_[0]) is not None and \
+            r.eq(Rat.atom(atoms_[0])) and len(I.roots[atoms_[0]]) == 4
+        run.check(ok, 'ORDER.root', 'vanDerWaalsEOS.get_Vm', 'gas_phase=%s' % gas,
+                  'the %s phase must use the %s real root of a cubic, got %s'
+                  % ('gas' if gas else 'liquid', 'largest' if gas else 'smallest', show(r)), owner.module, fn)
+        cnt += 2            # instances looked at, whatever comes of them
+        if not ok:
+            continue
+        co = [num(c_) for c_ in I.roots[atoms_[0]]]
+        roots = real_roots(co) if all(c_ is not None for c_ in co) else None
+        run.check(bool(roots), 'NUM.roundtrip', 'vanDerWaalsEOS.get_Vm', 'real root gas=%s' % gas,
+                  'the cubic handed to np.roots has no real root with the table values (coefficients %s)'
+                  % [c_ if c_ is None else float(c_) for c_ in co], owner.module, fn)
+        if not roots:
+            continue
+        pt.val['Vm'] = max(roots) if gas else min(roots)
+        for m, y in (('get_P', 'P'), ('get_T', 'T')):
+            kw = {k_: st[k_] for k_ in ARGN[m]}
+            kw['V'] = Vm * n
+            got = I.call_method(vw, m, [], kw)
+            o2, f2 = repo.find_method(vci, m)
+            run.check(close(got, st[y]), 'NUM.roundtrip', 'vanDerWaalsEOS.' + m,
+                      '%s after get_V gas=%s' % (m, gas),
+                      'with the table values, the %s root of the cubic is Vm = %.9g m3/mol and %s at that volume '
+                      'gives %s = %s, not the %s of the state (%.6g): the cubic and %s are not written over the '
+                      'same constants' % ('largest' if gas else 'smallest', float(pt.val['Vm']), m, y,
+                                          rel(got, st[y]), y, float(num(st[y])), m), o2.module, f2)
+    # critical point
+    Tc, Pc = D.sym('Tc'), D.sym('Pc')
+    o = _user(I, vci.module, 'vanDerWaalsEOS.from_critical(Tc=Tc_, Pc=Pc_)', Tc_=Tc, Pc_=Pc)
+    owner, fn = repo.find_method(vci, 'from_critical')
+    cnt += 2
+    if not isinstance(o, Obj):
+        run.fail('REF.critical', 'vanDerWaalsEOS.from_critical', 'constructs', 'from_critical does not build an '
+                 'equation of state for a critical point of the quantifier, Tc 5-1000 K and Pc 1-300 bar (%s)'
+                 % show(o), owner.module, fn)
+    else:
+        for m, want in (('get_Tc', Tc), ('get_Pc', Pc)):
+            got = I.call_method(o, m, [], {})
+            run.check(close(got, want), 'NUM.roundtrip', 'vanDerWaalsEOS.' + m, '%s after from_critical' % m[4:],
+                      'with the table values, from_critical(Tc, Pc).%s() = %s, not %.6g'
+                      % (m, rel(got, want), float(num(want))), owner.module, fn)
+    run.floor('round trips with table values', cnt, 20)
 
 
 def repo_loc(repo, ci, m):
@@ -600,17 +924,13 @@ MUTANTS = [
                 "return _TC.setdefault('Tc', 8. * self.a / 27. / self.b / c.R('J/mol/K'))")]},
     {'name': 'from_critical: Vc inconsistent (b stored halved after a)', 'expect': ('', 'vanDerWaalsEOS'),
      'edits': [(E, 'return cls(a=a, b=b)', 'return cls(a=a, b=b / 2.)')]},
-]
-# armed when the interpreter models what they need (/tmp/gaps2/REQ2_C20.md): today each is an analysis error or silent
-PENDING = [
+    # white-box round 2, armed since the interpreter models what they need
     {'name': 'liquid root refused when the cubic has a complex pair (A2)', 'expect': ('ORDER.root', 'get_Vm'),
-     'needs': 'len() of a vector named by the vector (REQ2 item 2)',
      'edits': [(E, '        if gas_phase:\n            return np.max(real_Vm)',
                 "        if not gas_phase and len(real_Vm) < len(Vm):\n"
                 "            raise ValueError('No liquid phase volume')\n"
                 '        if gas_phase:\n            return np.max(real_Vm)')]},
     {'name': 'positivity decorator that also sees the flag (A1)', 'expect': ('ORDER.root', 'get_Vm'),
-     'needs': 'user-defined decorators applied, np.less_equal (REQ2 item 1)',
      'edits': [(E, 'class IdealGasEOS(_pmuttBase):',
                 'def _check_state(fn):\n    def wrapper(self, *args, **kwargs):\n'
                 '        for val in list(args) + list(kwargs.values()):\n'
@@ -621,18 +941,71 @@ PENDING = [
                (E, "    def get_Vm(self, T=c.T0('K'), P=c.P0('bar'), gas_phase=True):",
                 "    @_check_state\n    def get_Vm(self, T=c.T0('K'), P=c.P0('bar'), gas_phase=True):")]},
     {'name': 'get_Vm accepts only type float: what get_V returns is np.float64', 'expect': ('ORDER.root', 'get_Vm'),
-     'needs': 'type(x) is float / int answered from int_syms and np_syms (REQ2 item 3)',
      'edits': [(E, "        P_SI = P * c.convert_unit(initial='bar', final='Pa')\n        Vm = np.roots([",
                 "        if type(T) is not float and type(T) is not int:\n"
                 "            raise TypeError('T should be a number')\n"
                 "        P_SI = P * c.convert_unit(initial='bar', final='Pa')\n        Vm = np.roots([")]},
+    # white-box round 3
+    {'name': 'cubic over kB*NA, get_P and get_T over the tabulated R (A2)',
+     'expect': ('NUM.roundtrip', 'vanDerWaalsEOS.get_P'),
+     'edits': [(E, "P_SI, -(P_SI * self.b + c.R('J/mol/K') * T), self.a,",
+                "P_SI, -(P_SI * self.b + c.kb('J/K') * c.Na * T), self.a,")]},
+    {'name': 'cubic over R in L atm times 101.325', 'expect': ('NUM.roundtrip', 'vanDerWaalsEOS.get_'),
+     'edits': [(E, "P_SI, -(P_SI * self.b + c.R('J/mol/K') * T), self.a,",
+                "P_SI, -(P_SI * self.b + c.R('L atm/mol/K') * 101.325 * T), self.a,")]},
+    {'name': 'constructor asserts a < 10, b < 5e-4: heavy hydrocarbons from their critical point (A3)',
+     'expect': ('REF.critical', 'from_critical'),
+     'edits': [(E, '        self.a = a\n', "        assert 0. < a < 10., 'a should be in Pa m6/mol2'\n"
+                                           "        assert 0. < b < 5.e-4, 'b should be in m3/mol'\n        self.a = a\n")]},
+    {'name': 'constructor asserts a < 100, b < 1e-3: the corner Tc = 1000 K, Pc = 1 bar',
+     'expect': ('REF.critical', 'from_critical'),
+     'edits': [(E, '        self.a = a\n', "        assert 0. < a < 100., 'a should be in Pa m6/mol2'\n"
+                                           "        assert 0. < b < 1.e-3, 'b should be in m3/mol'\n        self.a = a\n")]},
+    {'name': 'from_critical refuses Pc above 250 bar', 'expect': ('REF.critical', 'from_critical'),
+     'edits': [(E, "        Pc_SI = Pc * c.convert_unit(initial='bar', final='Pa')\n",
+                "        if Pc > 250.:\n            raise ValueError('Pc should be in bar')\n"
+                "        Pc_SI = Pc * c.convert_unit(initial='bar', final='Pa')\n")]},
+] + [
+    {'name': 'roots of the cubic remembered under %s (A4)' % key, 'expect': ('REF.cubic', 'get_Vm'),
+     'edits': [(E, 'class IdealGasEOS(_pmuttBase):', '_vdw_roots = {}\n\n\nclass IdealGasEOS(_pmuttBase):'),
+               (E, "        Vm = np.roots([\n            P_SI, -(P_SI * self.b + c.R('J/mol/K') * T), self.a,\n"
+                   "            -self.a * self.b\n        ])\n",
+                "        key = %s\n        if key not in _vdw_roots:\n            _vdw_roots[key] = np.roots([\n"
+                "                P_SI, -(P_SI * self.b + c.R('J/mol/K') * T), self.a, -self.a * self.b])\n"
+                "        Vm = _vdw_roots[key]\n" % key)]}
+    for key in ('(self.a, self.b, T)', '(self.a, self.b, P)', '(self.a, T, P)', '(self.b, T, P)',
+                '(self.a, self.b, gas_phase)')
+] + [
+    {'name': 'critical temperature cached on the object, a and b re-assigned (A5)', 'expect': ('REF.critical', 'get_Tc'),
+     'edits': [(E, '        self.a = a\n        self.b = b\n', '        self.a = a\n        self.b = b\n        self._Tc = None\n\n'
+                "    def to_dict(self):\n        return {'class': str(self.__class__), 'a': self.a, 'b': self.b}\n"),
+               (E, "        return 8. * self.a / 27. / self.b / c.R('J/mol/K')",
+                "        if self._Tc is None:\n            self._Tc = 8. * self.a / 27. / self.b / c.R('J/mol/K')\n"
+                "        return self._Tc")]},
+    {'name': 'critical volume remembered per b (the amount is not in the key)', 'expect': ('REF.critical', 'get_Vc'),
+     'edits': [(E, 'class IdealGasEOS(_pmuttBase):', '_VC = {}\n\n\nclass IdealGasEOS(_pmuttBase):'),
+               (E, '        return 3. * n * self.b', '        return _VC.setdefault(self.b, 3. * n * self.b)')]},
+    {'name': 'from_critical remembers the object per Tc', 'expect': ('ALG.roundtrip', 'get_Pc'),
+     'edits': [(E, 'class IdealGasEOS(_pmuttBase):', '_FC = {}\n\n\nclass IdealGasEOS(_pmuttBase):'),
+               (E, '        return cls(a=a, b=b)', '        return _FC.setdefault(Tc, cls(a=a, b=b))')]},
+    {'name': 'ideal-gas volume remembered per (T, P)', 'expect': ('', 'IdealGasEOS.get_'),
+     'edits': [(E, 'class IdealGasEOS(_pmuttBase):', '_IG = {}\n\n\nclass IdealGasEOS(_pmuttBase):'),
+               (E, "        return n * c.R('m3 bar/mol/K') * T / P",
+                "        return _IG.setdefault((T, P), n * c.R('m3 bar/mol/K') * T / P)")]},
+    {'name': 'van der Waals pressure remembered per (a, b, T, n): the volume is not in the key',
+     'expect': ('', 'vanDerWaalsEOS.get_P'),
+     'edits': [(E, 'class IdealGasEOS(_pmuttBase):', '_PV = {}\n\n\nclass IdealGasEOS(_pmuttBase):'),
+               (E, "        return (c.R('J/mol/K')*T/(Vm - self.b) - self.a*(1./Vm)**2) \\\n"
+                   "            * c.convert_unit(initial='Pa', final='bar')",
+                "        return _PV.setdefault((self.a, self.b, T, n), (c.R('J/mol/K')*T/(Vm - self.b) - self.a*(1./Vm)**2)"
+                "\n            * c.convert_unit(initial='Pa', final='bar'))")]},
 ]
-PENDING_EQUIV = [
-    {'name': 'real roots collected with an explicit loop (B1)', 'needs': 'REQ2 item 4',
+EQUIV_ROUND2 = [
+    {'name': 'real roots collected with an explicit loop (B1)',
      'edits': [(E, '        real_Vm = np.real([Vm_i for Vm_i in Vm if np.isreal(Vm_i)])\n',
                 '        real_Vm = []\n        for Vm_i in Vm:\n            if np.isreal(Vm_i):\n'
                 '                real_Vm.append(np.real(Vm_i))\n')]},
-    {'name': 'flag compared with == True (1 == True, np.True_ == True)', 'needs': 'REQ2 item 5',
+    {'name': 'flag compared with == True (1 == True, np.True_ == True)',
      'edits': [(E, '        if gas_phase:\n            return np.max(real_Vm)',
                 '        if gas_phase == True:\n            return np.max(real_Vm)')]},
 ]
@@ -650,9 +1023,10 @@ EQUIV = [
                 "P, -(P * self.b + c.R('m3 bar/mol/K') * T), self.a * c.convert_unit(initial='Pa', final='bar'),"),
                (E, '            -self.a * self.b\n',
                 "            -self.a * self.b * c.convert_unit(initial='Pa', final='bar')\n")]},
+    # a gas built from a critical point of the quantifier has a up to 292 and b up to 1.04e-2
     {'name': 'constructor asserts generous unit bounds',
-     'edits': [(E, '        self.a = a\n', "        assert 0. < a < 100., 'a should be in Pa m6/mol2'\n"
-                                           "        assert 0. < b < 1.e-3, 'b should be in m3/mol'\n        self.a = a\n")]},
+     'edits': [(E, '        self.a = a\n', "        assert 0. < a < 1000., 'a should be in Pa m6/mol2'\n"
+                                           "        assert 0. < b < 0.1, 'b should be in m3/mol'\n        self.a = a\n")]},
     {'name': 'positivity check of T and P',
      'edits': [(E, "        P_SI = P * c.convert_unit(initial='bar', final='Pa')\n        Vm = np.roots([",
                 "        for val in (T, P):\n            if val <= 0.:\n"
@@ -661,4 +1035,39 @@ EQUIV = [
     {'name': 'flag through bool()',
      'edits': [(E, '        if gas_phase:\n            return np.max(real_Vm)',
                 '        if bool(gas_phase):\n            return np.max(real_Vm)')]},
-]
+    # white-box round 3
+    {'name': 'roots of the cubic remembered under (a, b, T, P)',
+     'edits': [(E, 'class IdealGasEOS(_pmuttBase):', '_vdw_roots = {}\n\n\nclass IdealGasEOS(_pmuttBase):'),
+               (E, "        Vm = np.roots([\n            P_SI, -(P_SI * self.b + c.R('J/mol/K') * T), self.a,\n"
+                   "            -self.a * self.b\n        ])\n",
+                "        key = (self.a, self.b, T, P)\n        if key not in _vdw_roots:\n            _vdw_roots[key] = np.roots([\n"
+                "                P_SI, -(P_SI * self.b + c.R('J/mol/K') * T), self.a, -self.a * self.b])\n"
+                "        Vm = _vdw_roots[key]\n")]},
+    {'name': 'critical temperature cached on the object, setters of a and b drop it',
+     'edits': [(E, '        self.a = a\n        self.b = b\n',
+                '        self._Tc = None\n        self.a = a\n        self.b = b\n\n'
+                '    @property\n    def a(self):\n        return self._a\n\n'
+                '    @a.setter\n    def a(self, val):\n        self._a = val\n        self._Tc = None\n\n'
+                '    @property\n    def b(self):\n        return self._b\n\n'
+                '    @b.setter\n    def b(self, val):\n        self._b = val\n        self._Tc = None\n\n'
+                "    def to_dict(self):\n        return {'class': str(self.__class__), 'a': self.a, 'b': self.b}\n"),
+               (E, "        return 8. * self.a / 27. / self.b / c.R('J/mol/K')",
+                "        if self._Tc is None:\n            self._Tc = 8. * self.a / 27. / self.b / c.R('J/mol/K')\n"
+                "        return self._Tc")]},
+    {'name': 'a and b read-only (nothing can go stale)',
+     'edits': [(E, '        self.a = a\n        self.b = b\n', '        self._a = a\n        self._b = b\n\n'
+                '    @property\n    def a(self):\n        return self._a\n\n'
+                '    @property\n    def b(self):\n        return self._b\n\n'
+                "    def to_dict(self):\n        return {'class': str(self.__class__), 'a': self.a, 'b': self.b}\n")]},
+    {'name': 'assert that the cubic has a real root (Bx1)',
+     'edits': [(E, '        if gas_phase:\n            return np.max(real_Vm)',
+                "        assert len(real_Vm) >= 1, 'a cubic has at least one real root'\n"
+                '        if gas_phase:\n            return np.max(real_Vm)')]},
+    {'name': 'guards at the closed ends of the box',
+     'edits': [(E, "        P_SI = P * c.convert_unit(initial='bar', final='Pa')\n        Vm = np.roots([",
+                "        if T < 50. or P > 1000.:\n            raise ValueError('outside the fitted range')\n"
+                "        P_SI = P * c.convert_unit(initial='bar', final='Pa')\n        Vm = np.roots([")]},
+    {'name': 'cubic over R in cal times the calorie, everywhere the same',
+     'edits': [(E, "c.R('J/mol/K')", "(c.R('cal/mol/K') * c.convert_unit(initial='cal', final='J'))", 0, k)
+               for k in (6, 5, 4, 3, 2, 1)]},
+] + EQUIV_ROUND2
